@@ -282,3 +282,16 @@ def terms_frame2(ctx, a, b):
         elif name in ('f.Term.Term', 'f.Term.IsBlob', 'f.Term.IsSimple', 'f.Term.owner_', 'f.Term.pos_'):
             conj.append(forall([r], z3.Implies(live, z3.Select(now, r) == z3.Select(then, r)), patterns=[z3.Select(now, r)]))
     return mk_bool(z3.And(*conj) if conj else z3.BoolVal(True))
+
+
+@specfn('eq_own')
+def eq_own(ctx, eq):
+    """ownership part of eq_inv: elements of the term list are allocated Term objects owned by this equation at their index"""
+    st = ctx.st
+    tl = st.get_field(eq, 'TermList')
+    n = st.list_len(tl)
+    E = st.list_elems(tl)
+    O, Pz = (st.heap[st.field_family('Term', f)[0]] for f in ('owner_', 'pos_'))
+    i = z3.Int(fresh_name('i'))
+    ei = z3.Select(E, i)
+    return mk_bool(forall([i], z3.Implies(z3.And(0 <= i, i < n), z3.And(ei > 0, ei < st.alloc, z3.Select(O, ei) == eq.t, z3.Select(Pz, ei) == i)), patterns=[ei]))
